@@ -202,6 +202,25 @@ Theorem C11_int_sub_self_add_zero : forall x, in_int64 x = true -> int_arith SUB
 Proof. exact int_sub_self_add_zero. Qed.
 Print Assumptions C11_int_sub_self_add_zero.
 
+(* %: the remainder has the sign of the dividend, is smaller than the divisor in magnitude, and completes the
+   truncated quotient *)
+Theorem C11_mod_sign_and_bound : forall x y,
+  in_int64 x = true -> in_int64 y = true -> y <> 0 ->
+  exists r, Mod (VInt x) (VInt y) = Ok (VInt r) /\ r = Z.rem x y /\ Z.abs r < Z.abs y /\ 0 <= r * x /\
+            x = y * Z.quot x y + r.
+Proof. exact mod_sign_bound. Qed.
+Print Assumptions C11_mod_sign_and_bound.
+
+(* < on integers is a strict total order and <= its reflexive, antisymmetric, transitive closure *)
+Theorem C11_int_order : forall x y z,
+  int_rel LT x x = false /\ int_rel LE x x = true /\
+  (int_rel LT x y = true -> int_rel LT y z = true -> int_rel LT x z = true) /\
+  (int_rel LE x y = true -> int_rel LE y z = true -> int_rel LE x z = true) /\
+  (int_rel LE x y = true -> int_rel LE y x = true -> x = y) /\
+  (int_rel LT x y = true \/ x = y \/ int_rel GT x y = true).
+Proof. exact int_order. Qed.
+Print Assumptions C11_int_order.
+
 (* non-vacuity *)
 Example C11_examples :
   Arith DIV (VInt (-7)) (VInt 2) = Ok (VInt (-3)) /\
